@@ -47,6 +47,15 @@ def _generic_rules(rep):
             if id(c) not in seen_calls:
                 seen_calls.add(id(c))
                 bad.append((fi, c, why))
+    # parameter rules: every function of the modules this check consulted (zero sites package-wide on the pinned tree)
+    from .rules.params import mutated_mutable_defaults, accepted_not_threaded
+    for rel in sorted(rep.repo.consulted):
+        mi = rep.repo.modules.get(rel)
+        for fi2 in (mi.funcs.values() if mi is not None else []):
+            for node, why in mutated_mutable_defaults(fi2):
+                rep.ob(f"O{n}.0", "PARAM", fi2, False, alpha(node, fi2.node)[:90], "no call changes what a later call computes: " + why, node=node)
+            for node, why in accepted_not_threaded(fi2):
+                rep.ob(f"O{n}.0", "PARAM", fi2, False, alpha(node, fi2.node)[:90], "an accepted option reaches the layer that implements it: " + why, node=node)
     from .rules.wl_identity import wl_equality_as_identity
     wl_bad = [(fi, node, why) for fi in fis for node, why in wl_equality_as_identity(fi)]
     for fi, node, why in wl_bad:
